@@ -5,6 +5,7 @@
 package main
 
 import (
+	"math"
 	"encoding/json"
 	"fmt"
 
@@ -36,7 +37,10 @@ func (i *item) Compare(o skiplist.Scorer) int {
 }
 
 var items = []*item{
-	{1, 1, 0, 10}, {2, 1, 1, 20}, {3, 2, 0, 30}, {4, -1, 0, 40}, {5, -2, 0, 50}, {6, 0, 0, 60}, {7, 1, 0, 70}, {8, -1, 2, 80},
+	{1, 1, 0, 10}, {2, 1, 1, 20}, {3, 2, 0, 30}, {4, -1, 0, 40}, {5, -2, 0, 50}, {6, 0, 0, 60},
+	// the ends of the score range: their difference to any other score does not fit an int64
+	{9, math.MaxInt64, 0, 90}, {10, math.MinInt64 + 1, 0, 100},
+	{7, 1, 0, 70}, {8, -1, 2, 80},
 }
 
 type sys struct {
@@ -70,10 +74,10 @@ func (s *sys) minsert(it *item) {
 
 func main() {
 	r := vx.Start("C24", "model_checking")
-	r.Rule = "BFS over all histories of {Push(item,level), Remove(item)} on the real skiplist.Queue for capacities 1..3; items have tied, negative and zero scores; the skip-list level of each new node is an explorer choice in {1,2,3}; state = real linked structure (all level chains + buckets). distinct = distinct failure/eviction/rejection outcome classes observed"
+	r.Rule = "BFS over all histories of {Push(item,level), Remove(item)} on the real skiplist.Queue for capacities 1..3; items have tied, negative and zero scores and the two ends of the int64 score range; the skip-list level of each new node is an explorer choice in {1,2,3}; state = real linked structure (all level chains + buckets). distinct = distinct failure/eviction/rejection outcome classes observed"
 	r.Assume = []string{"container/list is correct", "levels above 3 behave like level 3 (same code path: loops over sl.level)"}
 	r.DistinctSet = "outcomes"
-	nItems := r.Pick(7, 8)
+	nItems := r.Pick(8, 10)
 	maxDepth := r.Pick(7, 9)
 	nLevels := 3
 	mk := func(capn int) *vx.Seq[*sys] {
